@@ -128,6 +128,7 @@ func cmdCheck(args []string) int {
 	nOb, nDis, nViol, nCover, nVac := 0, 0, 0, 0, 0
 	solverMs := int64(0)
 	var knownHit []string
+	var deadReturns []string
 	notClaimedList := map[string]string{}
 	bySolver := map[string]int{}
 	var samples []interface{}
@@ -137,8 +138,12 @@ func cmdCheck(args []string) int {
 			nCover++
 			if ob.Result == "unsat" {
 				if _, skip := notClaimed(&cfg, ob.Name); !skip {
-					fmt.Printf("UNDECIDED vacuous: %s is unreachable (contradictory requires or dead return)\n", ob.Name)
-					nVac++
+					if strings.HasSuffix(ob.Name, "#cover/requires") {
+						fmt.Printf("UNDECIDED vacuous: %s: the function's requires clauses are contradictory\n", ob.Name)
+						nVac++
+					} else {
+						deadReturns = append(deadReturns, ob.Name)
+					}
 				}
 			}
 			continue
@@ -288,7 +293,7 @@ func cmdCheck(args []string) int {
 			"discharged_by_solver": bySolver,
 			"solver_ms_total": solverMs,
 			"load_s": loadS, "generate_s": genS, "solve_s": solveS,
-			"vacuity": map[string]int{"cover_probes": nCover, "vacuous": nVac},
+			"vacuity": map[string]interface{}{"cover_probes": nCover, "vacuous": nVac, "unreachable_points": deadReturns},
 			"inlined_functions": sortedKeys(c.InlinedFns),
 			"effectively_constant_globals": sortedKeys(c.ConstGlobals),
 			"bounded": boundedEv,
